@@ -1561,6 +1561,13 @@ impl BytecodeVM {
         let current_arguments = mem::take(&mut self.arguments);
         self.release_arguments(current_arguments);
 
+        // A `return` from inside nested blocks skips their PopScope instructions: leave
+        // those scopes now (drops their guards; the environment itself is restored from
+        // the frame below), as the error path does when it unwinds a frame.
+        while let Some(saved_env) = self.saved_env_stack.pop() {
+            interp.pop_scope(saved_env);
+        }
+
         // Restore VM state
         self.ip = frame.ip;
         self.chunk = frame.chunk;
@@ -1778,6 +1785,13 @@ impl BytecodeVM {
                 }
                 return Ok(());
             }
+        }
+
+        // No handler found anywhere: the run ends here.  Leave the block scopes of the
+        // outermost frame too, so the interpreter is back in the scope the run started
+        // in and no scope guard of the dead run stays rooted.
+        while let Some(saved_env) = self.saved_env_stack.pop() {
+            interp.pop_scope(saved_env);
         }
 
         // No handler found - return the error back to caller with stack trace
